@@ -64,3 +64,46 @@ Proof.
     rewrite (live_slot_mem s r x H R2). cbv zeta. unfold set_imap. cbn [items imap dead].
     rewrite (kill_tail s r x H R2). reflexivity.
 Qed.
+
+(* ---- add / discard / clear / reverse / sort ------------------------------------------------------------ *)
+Theorem source_add s x : src_add s x = (m_add s x, Ok RNone).
+Proof.
+  unfold src_add, m_add. destruct (d_mem (imap s) x); [reflexivity|]. cbn [negb]. cbv zeta.
+  unfold set_items, set_imap, zlen. cbn [items imap dead]. rewrite Nat2Z.id. reflexivity.
+Qed.
+
+Theorem source_discard s x : Inv0 s -> src_discard s x = (m_discard gen_cfg s x, Ok RNone).
+Proof.
+  intros H. unfold src_discard, m_discard. rewrite (source_remove s x H). unfold m_remove.
+  destruct (d_get (imap s) x); reflexivity.
+Qed.
+
+Theorem source_clear s : src_clear s = (m_clear s, Ok RNone).
+Proof. reflexivity. Qed.
+
+Lemma remap_slots_some (m : tdict nat) l : py_remap_slots m (map Some l) = remap m l.
+Proof.
+  unfold py_remap_slots, remap. generalize 0. revert m.
+  induction l as [|x l IH]; intros m k; [reflexivity|]. simpl. apply IH.
+Qed.
+
+Theorem source_reverse s : src_reverse s = (m_reverse s, Ok RNone).
+Proof.
+  unfold src_reverse, m_reverse. cbv zeta. unfold set_items, set_imap, set_dead. cbn [items imap dead].
+  rewrite remap_slots_some. reflexivity.
+Qed.
+
+Lemma source_sort_gen s f :
+  src_sort s f = (if list_eqb slot_eqb (map Some (f (m_live s))) (items s) then s
+                  else mkIS (map Some (f (m_live s))) (remap (imap s) (f (m_live s))) [], Ok RNone).
+Proof.
+  unfold src_sort, py_klist_eq_slots. cbv zeta.
+  destruct (list_eqb slot_eqb (map Some (f (m_live s))) (items s)); [reflexivity|].
+  unfold set_items, set_imap, set_dead. cbn [items imap dead]. rewrite remap_slots_some. reflexivity.
+Qed.
+
+Theorem source_sort s r : src_sort s (fun l => py_sorted l r) = (m_sort s r, Ok RNone).
+Proof. apply source_sort_gen. Qed.
+
+Theorem source_sort_key s m r : src_sort s (fun l => py_sorted_key l m r) = (m_sort_key s m r, Ok RNone).
+Proof. apply source_sort_gen. Qed.
